@@ -15,3 +15,15 @@ package table
 //@                p.State == t.state && p.HKeys == t.hkeys && p.RecycledAt == t.recycledAt
 //@   ensures #image_memory [C11 C17] internal: len(p.Memory) == t.offset && forall i int :: 0 <= i && i < t.offset ==> p.Memory[i] == t.memory[i]
 //@   ensures #table_untouched [C11]: t.inv()
+
+// Import side: the table rebuilt from a received image has the image's bookkeeping and, byte for byte, its written
+// prefix. The image comes from a peer member and is not validated here (its offsets are trusted: slice-bound, nil and
+// callee-precondition obligations are skipped for this function and listed as such in the evidence).
+//@ func Decode(data []byte) (*Table, error)
+//@   props C11 C17
+//@   flag wired 2
+//@   flag skip slice nil requires idx
+//@   ensures #image_fields_restored [C11 C17] internal: result.1 == nil ==> t.offset == p.Offset && t.inuse == p.Inuse && t.garbage == p.Garbage && t.state == p.State &&
+//@                t.hkeys == p.HKeys && t.recycledAt == p.RecycledAt && t.offsetIndex == rb && result.0 == t
+//@   ensures #image_memory_restored [C11 C17] internal: result.1 == nil && p.Offset <= p.Allocated && len(p.Memory) == p.Offset && p.Allocated <= 4611686018427387904 ==>
+//@                forall i int :: 0 <= i && i < p.Offset ==> t.memory[i] == p.Memory[i]
